@@ -1634,14 +1634,23 @@ def _while_variant(ctx: Ctx, f: Func, w: ast.While) -> Optional[str]:
             s_name = src(n.value.func.value)
             args = n.value.args
             tg = n.targets[0].elts
-            if not (len(args) == 1 and isinstance(args[0], ast.Constant) and isinstance(args[0].value, str) and args[0].value and isinstance(tg[1], ast.Name) and src(tg[2]) == s_name and isinstance(n.value.func.value, ast.Name)):
+            if not (len(args) == 1 and isinstance(args[0], ast.Constant) and isinstance(args[0].value, str) and args[0].value and isinstance(tg[1], ast.Name) and isinstance(tg[2], ast.Name) and isinstance(n.value.func.value, ast.Name)):
                 continue
             sep = tg[1].id
-            others = [x for x in ast.walk(w) if isinstance(x, ast.Name) and isinstance(x.ctx, ast.Store) and x.id in (s_name, sep) and not any(x is e for e in tg)]
+            handover = None
+            if src(tg[2]) != s_name:
+                # `digit, space, tail = line.partition(" ")` ... `line = tail`: the rest is handed over through a local
+                hs = [m for m in cfg.live if m.kind == "stmt" and isinstance(m.ast, ast.Assign) and len(m.ast.targets) == 1 and src(m.ast.targets[0]) == s_name and src(m.ast.value) == tg[2].id and any(x is m.ast for x in ast.walk(w))]
+                if len(hs) != 1:
+                    continue
+                handover = hs[0]
+            others = [x for x in ast.walk(w) if isinstance(x, ast.Name) and isinstance(x.ctx, ast.Store) and x.id in (s_name, sep, tg[2].id) and not any(x is e for e in tg) and not (handover is not None and x is handover.ast.targets[0])]
             if others:
                 continue
             body = [s_ for lab, s_ in anchor.succ]
             if not (body and cfg.all_paths_pass(body[0], anchor, lambda m, nd=nd: m is nd, labels_avoid=("exc",))):
+                continue
+            if handover is not None and not cfg.all_paths_pass(body[0], anchor, lambda m, h_=handover: m is h_, labels_avoid=("exc",)):
                 continue
             # cut the edges taken when `sep` is truthy: the loop head must then be unreachable from the partition
             cut = set()
